@@ -209,6 +209,14 @@ def gen_c07(ctx):
                         kw = {"setup_code": rng.choice([425, 500, 550])} if step == "setup" else {"main_code": rng.choice([450, 550, 553])}
                         o = op_get(rng, cfg, cancel=cancel, **kw) if kind == "get" else op_put(rng, cfg, cancel=cancel, **kw)
                         yield line(c0, start(rng, cfg, login=False) + [o, op_simple(rng, cfg, "noop", 200)])
+    # an accepted listing, then a refused one on the same client: what the refused call returns is empty
+    for mode in "pa":
+        for rfc in (0, 1):
+            for step in ("setup", "main"):
+                cfg = Cfg(rng, "C07", mode=mode, rfc=rfc, ip=4); c0 = str(cfg)
+                kw = {"setup_code": rng.choice([425, 500, 550])} if step == "setup" else {"main_code": rng.choice([450, 550, 553])}
+                yield line(c0, start(rng, cfg, login=False) + [op_list(rng, cfg, text=b"drwxr-xr-x 2 0 0 4096 Jan 1 pub\r\n-rw-r--r-- 1 0 0 12 Jan 1 f.txt\r\n"), op_list(rng, cfg, **kw),
+                                                                 op_simple(rng, cfg, "noop", 200), op_list(rng, cfg, text=b"x\r\n"), op_list(rng, cfg, **kw)])
     ctx["scopes"].append("refused downloads / uploads with a transfer callback (never cancelled / cancelled from the start / at the second poll) x {set-up, main} x four methods")
     for _ in range(n_of(ctx, 200, 3000)):
         cfg = Cfg(rng, "C07"); c0 = str(cfg)
